@@ -322,6 +322,17 @@ def check_parser_literals(ctx, fx, rule):
                     if (x.get("k") == "call" and x.get("name") in ("rfind", "find_last_of") and x.get("args")
                             and X.const_val(x["args"][0]) in (ord(":"), ord("@"))):
                         rfinds.append(X.show(x)[:50])
+                    # a block of the state extracted into a local lambda of the parser: its literals count for the state
+                    if x.get("k") == "call" and (x.get("callee") or "").startswith("lambda@"):
+                        g = fx.by_key.get(x["callee"])
+                        if g is not None and g.get("lambda") and (" in " + f["key"]) in g["key"] and g.get("blocks"):
+                            for y, _s, _b in C.all_nodes(g):
+                                if (y.get("k") == "lit" and y.get("str") and len(y["v"]) >= 3 and " " not in y["v"]
+                                        and not any(ch in y["v"] for ch in ("/", chr(92), "?", "#"))):
+                                    got.add(y["v"])
+                                if (y.get("k") == "call" and y.get("name") in ("rfind", "find_last_of") and y.get("args")
+                                        and X.const_val(y["args"][0]) in (ord(":"), ord("@"))):
+                                    rfinds.append(X.show(y)[:50])
                     # one level into free helper functions called from the state
                     if x.get("k") == "call" and x.get("fp") and not x.get("method") and x.get("callee"):
                         g = fx.fn(x["callee"])
@@ -444,6 +455,32 @@ def check_dash_dot_guard(ctx, fx, rule):
                     n += 1
                     conds = _edge_conditions(f, b["id"])
                     ok = any(t.startswith("has_authority()") and pol is False for t, pol in conds)
+                    if not ok:
+                        # a helper that only inserts (the caller decides): every call of it must then be behind the test
+                        def callers_ok(g, depth):
+                            sites = []
+                            for h in fx.functions:
+                                if not (C.first_party(h) and h.get("blocks")) or h["key"] == g["key"]:
+                                    continue
+                                for hb in h["blocks"]:
+                                    for hs in hb["stmts"]:
+                                        for hn in X.stmt_nodes(hs, local=True):
+                                            if hn.get("k") == "call" and hn.get("qname") == g["qname"]:
+                                                sites.append((h, hb["id"]))
+                            if not sites:
+                                return False, []
+                            allc = []
+                            for h, hb in sites:
+                                hc = _edge_conditions(h, hb)
+                                allc += hc
+                                if any(t.startswith("has_authority()") and pol is False for t, pol in hc):
+                                    continue
+                                if depth > 0 and callers_ok(h, depth - 1)[0]:
+                                    continue
+                                return False, hc
+                            return True, allc
+                        ok, conds2 = callers_ok(f, 1)
+                        conds = conds or conds2
                     ctx.check(rule, "%s: \"/.\" inserted only when there is no authority" % f["qname"].split("::")[-1], ok,
                               "behind !has_authority()",
                               "%s inserts the \"/.\" guard under [%s]: the guard belongs in front of a path starting with \"//\" only "
@@ -451,7 +488,7 @@ def check_dash_dot_guard(ctx, fx, rule):
                               "protects the path, and the two extra bytes belong to no component"
                               % (f["qname"], "; ".join("%s%s" % ("" if pol else "!", t[:50]) for t, pol in conds)),
                               where=(st.get("loc") or f["loc"]).replace("/repo/", ""))
-    ctx.floor(rule, n, 2, "insertions of the \"/.\" guard")
+    ctx.floor(rule, n, 1, "insertions of the \"/.\" guard")
 
 
 def check_setter_empty_path(ctx, fx, rule):
@@ -525,10 +562,20 @@ def check_authority_buffer_test(ctx, fx, rule):
     """S2b.  Authority state: "If atSignSeen is true and buffer is the empty string, host-missing validation error, return
     failure" -- buffer is what was collected up to the delimiter, not the rest of the input."""
     from rules import statemachine as SM
-    n = 0
+    n = n_other = 0
     for f, m in SM.machines(fx):
         tag = SM.inst_tag(f)
         inits = C.single_inits(f)
+        # atSignSeen, whatever it is called: a bool local that the authority state sets to true
+        flags = set()
+        for bid in m.region.get("AUTHORITY", ()):
+            for st_ in m.blocks[bid]["stmts"]:
+                for nd in X.stmt_nodes(st_, local=True):
+                    if nd.get("k") == "assign" and nd.get("op") == "=" and X.const_val(nd["rhs"]) in (1, True):
+                        l0 = X.strip(nd["lhs"])
+                        if isinstance(l0, dict) and l0.get("k") == "ref" and (l0.get("ty") or "") == "bool":
+                            flags.add(l0["name"])
+        import re as _re
         for bid in m.region.get("AUTHORITY", ()):
             b = m.blocks[bid]
             c = C.term_cond(b)
@@ -536,7 +583,9 @@ def check_authority_buffer_test(ctx, fx, rule):
             if not (isinstance(c0, dict) and c0.get("k") == "call" and c0.get("name") == "empty" and c0.get("recv") is not None):
                 continue
             conds = _edge_conditions(f, bid)
-            if not any("at_sign_seen" in t and pol for t, pol in conds):
+            if not any(pol and any(_re.fullmatch(r"\(?%s\)?" % _re.escape(fl), t.strip()) for fl in flags) for t, pol in conds):
+                # (an emptiness test that lost its atSignSeen guard is C01.S2's finding; it still counts as found here)
+                n_other += 1
                 continue
             r0 = X.strip(c0["recv"])
             init = inits.get(r0.get("id")) if isinstance(r0, dict) and r0.get("k") == "ref" else None
@@ -549,7 +598,7 @@ def check_authority_buffer_test(ctx, fx, rule):
                       "delimiter, `view.substr(0, location)`): with the rest of the input instead, \"foo://user@/path\" is "
                       "accepted and keeps credentials with an empty host" % X.show(r0),
                       where=(b["term"].get("loc") or f["loc"]).replace("/repo/", ""))
-    ctx.floor(rule, n, 2, "empty-buffer tests in the authority state")
+    ctx.floor(rule, n + n_other, 2, "emptiness tests in the authority state")
 
 
 def check_origin(ctx, fx, rule):
@@ -571,6 +620,72 @@ def check_origin(ctx, fx, rule):
                   "non-special schemes, scheme + \"//\" + host(:port) for the other special schemes, and for \"blob\" the origin of "
                   "the path URL when that is http or https" % (cls, sorted(lits), sorted(enums)), where=f["loc"].replace("/repo/", ""))
     ctx.floor(rule, n, 2, "get_origin implementations")
+
+
+def check_getter_empties(ctx, fx, rule):
+    """search / hash getters: "If this's URL's query [fragment] is either null or the empty string, then return the empty string.
+    Return U+003F (?) [U+0023 (#)], followed by this's URL's query [fragment]."  ada::url tests the optional and the string's
+    emptiness; url_aggregator tests the offset against `omitted` and the length (delimiter included) against 1.  host getter:
+    "If url's port is null, return url's host, serialized. Return host, U+003A (:), port" -- the port is appended whenever it is
+    not null (no test on its value)."""
+    from lib.norm import cmp_norm
+    n = 0
+    for cls, nm, comp in (("ada::url", "get_search", "query"), ("ada::url", "get_hash", "hash"),
+                          ("ada::url_aggregator", "get_search", "search_start"), ("ada::url_aggregator", "get_hash", "hash_start")):
+        f = fx.fn1("%s::%s" % (cls, nm))
+        null_test = empty_test = False
+        for nd, st, b in C.all_nodes(f):
+            t = X.show(nd).replace("this->", "")
+            if nd.get("k") == "call" and nd.get("name") in ("has_value", "operator bool") and comp in t:
+                null_test = True
+            if nd.get("k") == "bin" and nd.get("op") in ("==", "!=") and comp in t and "omitted" in t:
+                null_test = True
+            if nd.get("k") == "call" and nd.get("name") == "empty" and nd.get("recv") is not None and comp in X.show(nd["recv"]):
+                empty_test = True
+            if nd.get("k") == "bin" and nd.get("op") in ("<", "<=", ">", ">=", "==", "!="):
+                cn = cmp_norm(nd)
+                if cn is None:
+                    continue
+                op, ts, c = cn
+                # a comparison of (end - start) with a constant: which lengths 0..5 does it accept?
+                if len(ts) == 2 and any(x.startswith("-") and comp in x for x in ts) and any(x.startswith("+") for x in ts):
+                    sign = 1
+                elif len(ts) == 2 and any(x.startswith("+") and comp in x for x in ts) and any(x.startswith("-") for x in ts):
+                    sign = -1
+                elif len(ts) == 1 and "size()" in ts[0] and comp in ts[0]:
+                    # query->size() compared with a constant (ada::url: the string has no delimiter: empty is length 0)
+                    sign = 1 if ts[0].startswith("+") else -1
+                    tv = [{"le": v <= 0, "lt": v < 0, "eq": v == 0, "ne": v != 0}[op] for v in (sign * L + c for L in range(0, 6))]
+                    if tv in ([True] + [False] * 5, [False] + [True] * 5):
+                        empty_test = True
+                    continue
+                else:
+                    continue
+                if cls.endswith("url_aggregator"):
+                    tv = [{"le": v <= 0, "lt": v < 0, "eq": v == 0, "ne": v != 0}[op] for v in (sign * L + c for L in range(0, 6))]
+                    # lengths 0 and 1 (just the delimiter) are "empty"; 0 cannot occur, so [_, T, F, F, F, F] or its negation
+                    if tv[1:] in ([True, False, False, False, False], [False, True, True, True, True]):
+                        empty_test = True
+        n += 1
+        ctx.check(rule, "%s::%s returns \"\" for a null and for an empty %s" % (cls.split("::")[-1], nm, "query" if "search" in nm else "fragment"),
+                  null_test and empty_test, "null test and emptiness test",
+                  "%s::%s %s: the getter returns the empty string when the component is null OR empty (\"?\" / \"#\" alone is never returned)"
+                  % (cls, nm, "has no test for the null component" if not null_test else "has no test for the empty component"),
+                  where=f["loc"].replace("/repo/", ""))
+    f = fx.fn1("ada::url::get_host")
+    bad = []
+    for b in f["blocks"]:
+        c = C.term_cond(b)
+        if c is None:
+            continue
+        for m in X.walk(c):
+            if m.get("k") == "bin" and m.get("op") in ("==", "!=", "<", "<=", ">", ">=") and "port" in X.show(m) and "nullopt" not in X.show(m):
+                bad.append(X.show(m))
+    n += 1
+    ctx.check(rule, "url::get_host appends the port whenever it is not null", not bad, "engagement tests only",
+              "ada::url::get_host decides on the port's VALUE (%s): the host getter appends ':' and the port whenever the port is not null"
+              % ", ".join(bad[:2]), where=f["loc"].replace("/repo/", ""))
+    ctx.floor(rule, n, 5, "getter obligations")
 
 
 def _control_conditions(f, blocks, preds, bid, stop):
@@ -708,13 +823,30 @@ def check_empty_value_clears(ctx, fx, rule):
                     st += [e["to"] for e in bb["succ"] if not e.get("pruned")]
                 joined = " ; ".join(txt).replace("this->", "").replace("components.", "")
                 cleared = any(t in joined for t in tokens)
+                # the converse: nothing outside that arm sets the component to null ("\t" is not the empty string: the parser run
+                # with a state override ends without touching the component)
+                outside = []
+                for bb in f["blocks"]:
+                    if bb["id"] in seen:
+                        continue
+                    for s_ in bb["stmts"]:
+                        for e in X.stmt_exprs(s_):
+                            t_ = X.show(e).replace("this->", "").replace("components.", "")
+                            if any(t in t_ for t in tokens):
+                                outside.append((s_.get("loc") or "").replace("/repo/", ""))
+                n += 1
+                ctx.check(rule, "%s::%s sets the %s to null only for the empty string" % (cls.split("::")[-1], nm, what), not outside,
+                          "no other clearing statement",
+                          "%s::%s also sets the %s to null outside its `input.empty()` arm (%s): only the empty string clears it; a value "
+                          "that becomes empty after tab/newline removal leaves it unchanged" % (cls, nm, what, ", ".join(outside)),
+                          where=(outside[0] if outside else f["loc"].replace("/repo/", "")))
             n += 1
             ctx.check(rule, "%s::%s(\"\") sets the %s to null" % (cls.split("::")[-1], nm, what), found and cleared,
                       "the empty-value arm clears the %s" % what,
                       "%s::%s %s: 'If the given value is the empty string, then set this URL's %s to null'" % (
                           cls, nm, "has no `input.empty()` arm" if not found else "returns from its empty-value arm without clearing the " + what,
                           what), where=f["loc"].replace("/repo/", ""))
-    ctx.floor(rule, n, 6, "empty-value arms of the port/search/hash setters")
+    ctx.floor(rule, n, 12, "empty-value arms of the port/search/hash setters (clears there, and only there)")
 
 
 # ---------------------------------------------------------------------------------------------------------------
